@@ -8,17 +8,22 @@ installed by "the host" or by pyscript), a simulated package index (package -> l
 carry a record (``_installed_packages``) left by an earlier session, ``allow_all_imports`` on/off; histories of
 up to 5 consecutive runs of the REAL ``install_requirements`` (run 0 = integration set-up, then
 ``pyscript.reload`` / entry unload+setup / a direct call) with, in between, external installs / upgrades /
-removals, index releases, edits of the requirement files and ``allow_all_imports`` toggles.
+removals, index releases, edits of the requirement files and ``allow_all_imports`` toggles.  Inline comments are
+free text (also with ``, < > ~ !``).  The host may install exactly the version that is pinned.  The installer may
+fail (for everything = no network, or for some packages = no such version) from the start or from some point of
+the history on and recover later; the history goes on after a run that failed for that reason.
 
 Seams owned by the simulator (``unittest.mock.patch`` on the names as imported in
 ``custom_components.pyscript.requirements``): ``glob`` (seeded permutation of every directory listing, new
 permutation each run), ``installed_version`` (answers from the simulated table like importlib.metadata does),
-``async_process_requirements`` (the installer: records the call, updates the table as pip would), plus two
+``async_process_requirements`` (the installer: records the call, updates the table as pip would, raises
+``RequirementsNotFound`` for the requirements whose installation is made to fail), plus two
 passive probes (``process_all_requirements`` result, begin/end of ``install_requirements``).
 
 Oracle: a reference resolver written from the property text and docs/reference.rst (highest ``==`` pin by
 packaging.version, unpinned only without a pin, comments / blank / unsupported specifiers ignored) and the
-stated installer rules.  Order independence is checked twice: (1) the whole history is executed in two
+stated installer rules; the record is compared with what the simulated installer really did after every run,
+whether installations failed or not and whether the run raised or not.  Order independence is checked twice: (1) the whole history is executed in two
 worlds that differ only in which file holds which content, the order of lines within the files and the
 listing permutations - resolved table, installer calls and record must be identical after every run;
 (2) in world A the real ``process_all_requirements`` is swept over all (small sets) or a seeded sample of
@@ -53,7 +58,9 @@ RULE = (
     "seeded generation of (1-4 requirements.txt files x 1-4/6 lines over <=4 packages incl. comments, blanks, "
     "unsupported specifiers, malformed and non-PEP-440 lines; installed-package table, index, prior record, "
     "allow_all_imports; history of <=4 further runs via reload / unload+setup / direct call with external "
-    "installs, removals, index releases, file edits, allow toggles); every scenario is executed in two worlds "
+    "installs (host versions or the very version that is pinned), removals, index releases, file edits, allow "
+    "toggles; in 3 of 10 scenarios the installer fails from the start or from some point on - for every package "
+    "or, in half of those, for a subset - and recovers again); every scenario is executed in two worlds "
     "with different file/line/listing orders and, in world A, the resolver is swept over all (<=24/48) or a sample "
     "of orderings of the same multiset; distinct = scenario digest; non-trivial = an allowed run with >=1 "
     "resolved package and (>=2 files or a package with >=2 competing supported entries)"
@@ -62,12 +69,25 @@ ASSUMPTIONS = [
     "the installer (homeassistant.requirements.async_process_requirements -> pip) is simulated: 'pkg==X' installs "
     "exactly X unless X is already installed, 'pkg' installs the index's latest unless something is installed, "
     "other PEP 508 specifiers install the index's latest unless satisfied; strings pip cannot parse are recorded "
-    "and otherwise ignored; installer failures are not injected (outside the stated quantifier)",
+    "and otherwise ignored",
+    "installer failures are injected (no network = every installation fails; no such version / build error = the "
+    "installations of some packages fail) the way homeassistant.requirements behaves: requirements that are "
+    "already satisfied never fail, every other requirement is installed on its own, the ones that fail change "
+    "nothing, and RequirementsNotFound is raised at the end if any failed; Home Assistant's per-session memory of "
+    "failed / satisfied requirement strings is not simulated (every run asks pip again)",
+    "whether install_requirements passes the installer's RequirementsNotFound on (set-up / reload fails) or goes "
+    "on is don't-care; the record clause ('always matches what it installed') is judged after such a run like "
+    "after any other: nothing that was not installed may be claimed, nothing that was installed may be missing; "
+    "'must be passed to the installer' / 'must be updated' are only judged for runs that do not raise",
+    "after a set-up that failed because of the installer the config entry is not loaded: a following "
+    "pyscript.reload in the history is carried out as entry unload+setup (what a user has to do then)",
     "importlib.metadata.version is simulated from the package table: unknown name -> PackageNotFoundError, "
     "empty name -> ValueError (as the real function does)",
-    "external (host) installs always use versions that pyscript never pins or installs (disjoint version pools), so "
-    "'installed by something other than pyscript' is observable through the version; an external re-install of the "
-    "very version pyscript installed is indistinguishable for any implementation and is not generated",
+    "external (host) installs use versions that pyscript never pins or installs (disjoint version pools) or the "
+    "version that is pinned at that moment provided it is not the version pyscript installed last (or holds as a "
+    "prior record), so 'installed by something other than pyscript' is observable through installed version vs. "
+    "a truthful record; an external re-install of the very version pyscript installed is indistinguishable for "
+    "any implementation and is not generated",
     "the prior record seeded into the config entry is always a state pyscript could have left: version == installed "
     "version for packages it still owns, or a stale version for packages changed/removed externally since",
     "a stale record entry for a package that was changed or removed externally is don't-care (pyscript is only "
@@ -108,7 +128,10 @@ REACH_PROBES = [
     "numeric_vs_lexical_order", "prerelease_or_post_pin", "unpinned_installed_from_index",
     "entry_unload_setup", "direct_call", "reload_run", "sweep_exhaustive", "sweep_sampled",
     "prior_record_seeded", "stale_record_seeded", "worlds_visit_order_differs", "missing_package_installed",
-    "file_deleted_between_runs", "no_requirements_at_all",
+    "file_deleted_between_runs", "no_requirements_at_all", "inline_comment_with_specifier_chars",
+    "installer_failed", "installer_failed_partially", "install_failed_for_missing_pin",
+    "install_failed_for_missing_unpinned", "install_failed_for_own_update", "run_raised_on_failed_install",
+    "run_after_failed_install", "restart_after_failed_setup", "host_installs_pinned_version",
 ]
 SHRINK_LISTS = [["ops"], ["spec", "files"], ["spec", "files", "*", "lines"]]
 
@@ -121,6 +144,11 @@ PIN_POOL = ["1.0", "1.0.0", "1.2", "1.2.3", "1.9", "1.10", "2.0", "2.0rc1", "2.0
 HOST_POOL = ["0.5", "0.8.2", "4.0", "4.1.1"]  # disjoint from PIN_POOL and INDEX_POOL
 INDEX_POOL = ["3.0", "3.1", "3.5"]
 NONPEP = ["abc", "latest", ""]
+COMMENT_NOTES = [  # inline comment texts with characters that mean something in a requirement specifier
+    "needs >=2.0, see changelog", "any version > 1 is fine", "ok!", "~ same as prod", "pinned, do not touch",
+    "was PKG<9.9", "PKG!=9.9 is broken", "a, b and c need it", "-> see README", "PKG~=9.9 would do as well",
+]
+PIP_MODES = ("ok", "offline", "pkgs")
 PATH_POOL = [
     "pyscript/requirements.txt",
     "pyscript/apps/app1/requirements.txt",
@@ -279,8 +307,13 @@ def _gen_line(rng: random.Random, pkgs: list[str], exotic: bool) -> str:
     if roll < 0.58:
         return pkg
     if roll < 0.65:
-        return rng.choice(["# a comment", f"# {pkg}==9.9", f"#{pkg}==9.9", f"   # {pkg}"])
+        return rng.choice(["# a comment", f"# {pkg}==9.9", f"#{pkg}==9.9", f"   # {pkg}",
+                           f"# {pkg}>=9.9, <10 (not yet!)", f"  # ~ {pkg} != 9.9"])
     if roll < 0.72:
+        if rng.random() < 0.5:
+            # comment text is free text: it may well contain the characters of version specifiers
+            note = rng.choice(COMMENT_NOTES).replace("PKG", pkg)
+            return rng.choice([f"{pkg}=={ver}  # {note}", f"{pkg} # {note}", f"{pkg}=={ver}\t#{note}"])
         return rng.choice([f"{pkg}=={ver} # needs {pkg}==9.9", f"{pkg}  # any version", f"{pkg}=={ver}\t# pinned"])
     if roll < 0.77:
         return rng.choice(["", "   ", "\t"])
@@ -316,6 +349,16 @@ def _gen_paths(rng: random.Random, n: int) -> list[str]:
     return paths[:n]
 
 
+def _gen_pip(rng: random.Random, pkgs: list[str], partial: bool) -> dict:
+    """State of the installer from now on: works / fails for everything / fails for some packages."""
+    roll = rng.random()
+    if roll < 0.30:
+        return {"mode": "ok"}
+    if roll < 0.65 or not partial:
+        return {"mode": "offline"}
+    return {"mode": "pkgs", "pkgs": sorted(rng.sample(pkgs, rng.randint(1, max(1, len(pkgs) - 1))))}
+
+
 def gen(rng: random.Random, tier: str) -> dict:
     conf = TIERS[tier]
     cfg = gen_cfg(rng, legacy=False)
@@ -346,13 +389,26 @@ def gen(rng: random.Random, tier: str) -> dict:
         if prior and p not in record and rng.random() < 0.3:
             record[p] = rng.choice(PIN_POOL + INDEX_POOL)  # stale: changed or removed externally since
     model = {f["path"]: list(f["lines"]) for f in files}
+    # the installer can fail (no network, no such version, build error) in 3 of 10 scenarios; in half of those
+    # only as a whole ("steer" coin: keeps runs that are not affected by what a partial failure does)
+    pip_faults = rng.random() < 0.30
+    pip_partial = rng.random() < 0.5
+    pip0 = _gen_pip(rng, pkgs, pip_partial) if pip_faults and rng.random() < 0.6 else {"mode": "ok"}
     ops: list[dict] = []
     for _ in range(rng.choice([0, 1, 2, 2, 3, 4])):
         for _ in range(rng.choice([0, 1, 1, 2, 3])):
             op: dict = {"dt": 0.25 * rng.randint(1, 8)}
+            if pip_faults and rng.random() < 0.3:
+                op.update({"kind": "pip"})
+                op.update(_gen_pip(rng, pkgs, pip_partial))
+                ops.append(op)
+                continue
             roll = rng.random()
             if roll < 0.22:
-                op.update({"kind": "ext_install", "pkg": rng.choice(pkgs), "v": rng.choice(HOST_POOL)})
+                # "pin": the host installs the very version the files pin at that moment, if pyscript did not
+                # install that version itself (else, and without a pin: "v")
+                op.update({"kind": "ext_install", "pkg": rng.choice(pkgs), "v": rng.choice(HOST_POOL),
+                           "pin": rng.random() < 0.3})
             elif roll < 0.36:
                 op.update({"kind": "ext_remove", "pkg": rng.choice(pkgs)})
             elif roll < 0.46:
@@ -389,6 +445,7 @@ def gen(rng: random.Random, tier: str) -> dict:
         "record_key_present": rng.random() < 0.5, "eol": rng.random() < 0.8, "exotic": exotic,
         "listing_seed": rng.randrange(1 << 30), "sweep_seed": rng.randrange(1 << 30),
         "order_b": {"seed": rng.randrange(1 << 30), "listing_seed": rng.randrange(1 << 30)},
+        "pip0": pip0,
     }
     return {"cfg": cfg, "spec": spec, "ops": ops}
 
@@ -465,6 +522,11 @@ def simplify(scn: dict):
         cand = copy.deepcopy(scn)
         cand["spec"]["prior_entry"] = False
         yield cand
+    if (spec.get("pip0") or {}).get("mode") == "pkgs" and len(spec["pip0"].get("pkgs") or []) > 1:
+        for pi in range(len(spec["pip0"]["pkgs"])):
+            cand = copy.deepcopy(scn)
+            del cand["spec"]["pip0"]["pkgs"][pi]
+            yield cand
     if len(spec["pkgs"]) > 1:
         used = set()
         for ent in spec["files"]:
@@ -475,6 +537,8 @@ def simplify(scn: dict):
                 used.update(p for p in spec["pkgs"] if p in ln)
             if op.get("pkg"):
                 used.add(op["pkg"])
+            used.update(op.get("pkgs") or [])
+        used.update((spec.get("pip0") or {}).get("pkgs") or [])
         used.update(spec["table"])
         used.update(spec["record"])
         keep = [p for p in spec["pkgs"] if p in used]
@@ -490,7 +554,20 @@ def simplify(scn: dict):
                 cand = copy.deepcopy(scn)
                 cand["spec"]["files"][fi]["lines"][li] = cls["text"]
                 yield cand
+    if (spec.get("pip0") or {}).get("mode", "ok") != "ok":
+        cand = copy.deepcopy(scn)
+        cand["spec"]["pip0"] = {"mode": "ok"}
+        yield cand
     for oi, op in enumerate(scn["ops"]):
+        if op["kind"] == "ext_install" and op.get("pin"):
+            cand = copy.deepcopy(scn)
+            cand["ops"][oi]["pin"] = False
+            yield cand
+        if op["kind"] == "pip" and op.get("mode") == "pkgs" and len(op.get("pkgs") or []) > 1:
+            for pi in range(len(op["pkgs"])):
+                cand = copy.deepcopy(scn)
+                del cand["ops"][oi]["pkgs"][pi]
+                yield cand
         if op["kind"] == "write" and len(op["lines"]) > 1:
             for li in range(len(op["lines"])):
                 cand = copy.deepcopy(scn)
@@ -563,6 +640,7 @@ class PkgSim:
         self.dead = False
         self.sweeps = 0
         self.sweep_orderings = 0
+        self.pip: dict = dict(spec.get("pip0") or {"mode": "ok"})  # state of the installer (injected fault)
 
     # ------------------------------------------------------------ seams
     def installed_version(self, name):
@@ -574,7 +652,13 @@ class PkgSim:
             raise PackageNotFoundError(name)
         return ent[0]
 
+    def pip_fails(self, pkg: str) -> bool:
+        mode = self.pip.get("mode", "ok")
+        return mode == "offline" or (mode == "pkgs" and pkg in (self.pip.get("pkgs") or []))
+
     async def installer(self, hass, name, requirements, *args, **kwargs):
+        """homeassistant.requirements.async_process_requirements: every requirement that is not satisfied yet is
+        installed on its own; the ones that fail are collected and reported by RequirementsNotFound at the end."""
         reqs = [str(r) for r in requirements]
         if self.cur is None:
             raise HarnessError("installer called outside install_requirements")
@@ -604,10 +688,19 @@ class PkgSim:
                 if have is not None and parsed.specifier.contains(have[0], prereleases=True):
                     continue
                 target = self.index[pkg]
+            if self.pip_fails(pkg):
+                self.cur["pip_failed"].append(req)
+                continue
             self.table[pkg] = [target, "pyscript"]
             self.last_py[pkg] = target
             self.cur["installed"][pkg] = target
         await asyncio.sleep(0)
+        failed = [r for r in reqs if r in self.cur["pip_failed"]]
+        if failed:
+            from homeassistant.requirements import RequirementsNotFound
+
+            self.world.fault("installer_failure")
+            raise RequirementsNotFound(name, failed)
 
     def wrap_process(self, real):
         self.real_process = real
@@ -660,6 +753,8 @@ class PkgSim:
             "disk": {p: list(v) for p, v in sorted(variant_files(self.model, self.order).items())},
             "calls": [],
             "unparsable": [],
+            "pip": copy.deepcopy(self.pip),
+            "pip_failed": [],
             "installed": {},
             "resolved": None,
             "exc": None,
@@ -679,6 +774,8 @@ class PkgSim:
         flat = sorted(r for call in rec["calls"] for r in call)
         self.world.trace.append(["c20run", rec["k"], rec["how"], rec["t"], rec["allow"], rec["resolved"], flat,
                                  sorted(rec["record_after"].items()), rec["exc"], rec["visited"]])
+        if rec["pip_failed"]:
+            self.world.trace.append(["c20pipfail", rec["k"], sorted(rec["pip_failed"]), sorted(rec["installed"])])
 
     # ------------------------------------------------------------ disk
     def materialise(self, files: dict[str, list[str]] | None = None) -> None:
@@ -833,6 +930,11 @@ def sweep(w: "ReqWorld", sim: PkgSim, tier_conf: dict, out: list) -> None:
     w.trace.append(["c20sweep", w.vts(), len(cands), exhaustive])
 
 
+def _failed_install_exc(rec: dict) -> bool:
+    """The run raised the installer's own error after an injected installer failure."""
+    return bool(rec.get("exc")) and bool(rec.get("pip_failed")) and rec.get("exc_type") == "RequirementsNotFound"
+
+
 def run_world(scn: dict, order: dict | None, tier_conf: dict):
     """Execute the history in one world. Returns (world, sim, sweep violations)."""
     sim = PkgSim(scn, order)
@@ -848,8 +950,15 @@ def run_world(scn: dict, order: dict | None, tier_conf: dict):
         await w.settle()
         if len(sim.runs) != 1:
             raise HarnessError(f"set-up ran install_requirements {len(sim.runs)} times")
+        # a run that raises because the (simulated) installer failed is a legal outcome: the history goes on; a
+        # failed set-up leaves the config entry in the state "setup error" (no reload service), so the next
+        # reload is replaced by what the user has to do then: reload the entry / restart (unload + setup)
+        loaded = True
         if sim.runs[0]["exc"]:
-            sim.dead = True
+            if _failed_install_exc(sim.runs[0]):
+                loaded = False
+            else:
+                sim.dead = True
         dirty = True
         n_run_ops = 0
         for op in scn["ops"]:
@@ -857,11 +966,24 @@ def run_world(scn: dict, order: dict | None, tier_conf: dict):
             kind = op["kind"]
             if kind == "ext_install":
                 had = sim.table.get(op["pkg"])
+                ver = op["v"]
+                if op.get("pin"):
+                    ref = resolve([ln for p in sorted(sim.model) for ln in sim.model[p]])
+                    exp = ref["sel"].get(op["pkg"])
+                    if exp is not None and exp["pinned"] and op["pkg"] not in ref["open"] \
+                            and not same_version(sim.last_py.get(op["pkg"]), exp["v"]):
+                        ver = exp["v"]
+                        w.probe("host_installs_pinned_version")
                 if had is not None and had[1] == "pyscript":
                     w.probe("external_upgrade_of_own")
-                sim.table[op["pkg"]] = [op["v"], "host"]
+                sim.table[op["pkg"]] = [ver, "host"]
                 w.fault("external_install")
-                w.trace.append(["op", "ext_install", w.vts(), op["pkg"], op["v"]])
+                w.trace.append(["op", "ext_install", w.vts(), op["pkg"], ver])
+            elif kind == "pip":
+                sim.pip = {"mode": op.get("mode", "ok"), "pkgs": list(op.get("pkgs") or [])}
+                if sim.pip["mode"] not in PIP_MODES:
+                    raise HarnessError(f"unknown installer mode {sim.pip['mode']}")
+                w.trace.append(["op", "pip", w.vts(), sim.pip["mode"], sim.pip["pkgs"]])
             elif kind == "ext_remove":
                 had = sim.table.pop(op["pkg"], None)
                 if had is not None and had[1] == "pyscript":
@@ -900,6 +1022,11 @@ def run_world(scn: dict, order: dict | None, tier_conf: dict):
                     dirty = False
                 before = len(sim.runs)
                 how = op["how"]
+                if how == "reload" and not loaded:
+                    how = "restart"
+                    w.probe("restart_after_failed_setup")
+                if sim.runs and sim.runs[-1]["pip_failed"]:
+                    w.probe("run_after_failed_install")
                 sim.next_how = how
                 try:
                     if how == "reload":
@@ -927,7 +1054,13 @@ def run_world(scn: dict, order: dict | None, tier_conf: dict):
                 if len(sim.runs) != before + 1:
                     raise HarnessError(f"{how} ran install_requirements {len(sim.runs) - before} times")
                 if sim.runs[-1]["exc"]:
-                    sim.dead = True
+                    if _failed_install_exc(sim.runs[-1]):
+                        if how == "restart":
+                            loaded = False
+                    else:
+                        sim.dead = True
+                elif how == "restart":
+                    loaded = True
             else:
                 raise HarnessError(f"unknown op {kind}")
         if dirty and order is None and not sim.dead:
@@ -1001,7 +1134,18 @@ def judge_run(rec: dict, ref: dict, universe: list[str], tainted: set, probe, op
     if open_ever is None:
         open_ever = set()
     open_ever |= ref["open"]
-    if rec["exc"] and bool(open_ever):
+    pip_failed = list(rec.get("pip_failed") or [])
+    failed_pkgs = {_split_req(r)[0] for r in pip_failed}
+    if pip_failed:
+        probe("installer_failed")
+        if rec["installed"]:
+            probe("installer_failed_partially")
+        probe("run_raised_on_failed_install" if rec["exc"] else "run_continued_after_failed_install")
+    if _failed_install_exc(rec):
+        # the installer reported a failure and install_requirements passed it on: whether a failed installation
+        # stops the run is not stated, so raising or not is don't-care; the record is judged below in any case
+        pass
+    elif rec["exc"] and bool(open_ever):
         # a run that raises because of a '==' pin that is not a PEP 440 version: the property does not say what
         # has to happen with such a line, so this is don't-care (counted, not judged)
         probe("run_raised_on_nonpep440_pin")
@@ -1042,7 +1186,11 @@ def judge_run(rec: dict, ref: dict, universe: list[str], tainted: set, probe, op
                 out.append({"class": "C20.wrong_version", "sig": {"form": form_of(ref, name), "kind": "installer_arg"},
                             "detail": f"{where}: installer got {req!r} for an unpinned requirement", "t": t})
             have = before.get(name)
-            if have is None:
+            if have is not None and have[1] == "pyscript" and name in failed_pkgs:
+                probe("install_failed_for_own_update")
+            if have is None and name in failed_pkgs:
+                probe("install_failed_for_missing_pin" if exp["pinned"] else "install_failed_for_missing_unpinned")
+            elif have is None:
                 probe("missing_package_installed")
                 if not exp["pinned"]:
                     probe("unpinned_installed_from_index")
@@ -1115,25 +1263,49 @@ def judge_run(rec: dict, ref: dict, universe: list[str], tainted: set, probe, op
         have = after.get(name)
         got = rec_after.get(name)
         unp = name in sel and not sel[name]["pinned"]
-        if have is not None and have[1] == "pyscript":
+        sig_x: dict = {}
+        note = ""
+        if pip_failed:
+            # an injected installer failure in this run: same rule, the signature tells the situations apart
+            sig_x = {"installer": "failed_for_it" if name in failed_pkgs else
+                     ("failed_for_another" if name in rec["installed"] else "failed")}
+            note = f" [the installer failed for {pip_failed}, installed {rec['installed']}, run raised: {rec['exc']}]"
+        if pip_failed and name in rec["installed"] and not same_version(got, have[0] if have else None):
+            # pyscript installed this package in this run while the installation of another one failed, and its
+            # record does not say so (no entry, or the stale entry of an earlier session): one signature; what it
+            # does with the package in later runs is a consequence and not judged again
+            out.append({"class": "C20.record_mismatch", "sig": {"kind": "installed_but_not_recorded", **sig_x},
+                        "detail": f"{where}: pyscript installed {name!r} {rec['installed'][name]} in this run but "
+                                  f"the record after the run is {rec_after}{note}", "t": rec["t_end"]})
+            tainted.add(name)
+        elif have is not None and have[1] == "pyscript":
             if got is None:
-                out.append({"class": "C20.record_mismatch", "sig": {"kind": "missing", "unpinned": unp},
+                prev = rec["record_before"].get(name)
+                if prev is not None and prev != have[0] and same_version(prev, have[0]):
+                    # the entry was there and named the installed version in another spelling (1.0 / 1.0.0): its
+                    # own signature; the package is dropped for good, so later runs are not judged for it again
+                    sig_x = {**sig_x, "spelling": "record_and_installed_differ"}
+                    note += f" [record before the run: {name!r}: {prev!r}]"
+                    probe("record_spelling_differs_from_installed")
+                    tainted.add(name)
+                out.append({"class": "C20.record_mismatch", "sig": {"kind": "missing", "unpinned": unp, **sig_x},
                             "detail": f"{where}: pyscript installed {name!r} {have[0]} (this run: "
-                                      f"{name in rec['installed']}) but the record after the run is {rec_after}",
+                                      f"{name in rec['installed']}) but the record after the run is {rec_after}{note}",
                             "t": rec["t_end"]})
             elif not same_version(got, have[0]):
-                out.append({"class": "C20.record_mismatch", "sig": {"kind": "wrong_version", "unpinned": unp},
-                            "detail": f"{where}: pyscript installed {name!r} {have[0]} but records {got!r}",
+                out.append({"class": "C20.record_mismatch", "sig": {"kind": "wrong_version", "unpinned": unp, **sig_x},
+                            "detail": f"{where}: pyscript installed {name!r} {have[0]} but records {got!r}{note}",
                             "t": rec["t_end"]})
         elif got is not None:
             last = rec["last_py_before"].get(name)
             if name not in rec["record_before"]:
-                out.append({"class": "C20.record_mismatch", "sig": {"kind": "invented", "unpinned": unp},
+                out.append({"class": "C20.record_mismatch", "sig": {"kind": "invented", "unpinned": unp, **sig_x},
                             "detail": f"{where}: {name!r} (installed: {have}) is not pyscript's, yet it appears in the "
-                                      f"record as {got!r}", "t": rec["t_end"]})
+                                      f"record as {got!r}{note}", "t": rec["t_end"]})
             elif last is None or not same_version(got, last):
-                out.append({"class": "C20.record_mismatch", "sig": {"kind": "never_installed_that", "unpinned": unp},
-                            "detail": f"{where}: record says {name!r} {got!r}; pyscript last installed {last!r}",
+                out.append({"class": "C20.record_mismatch",
+                            "sig": {"kind": "never_installed_that", "unpinned": unp, **sig_x},
+                            "detail": f"{where}: record says {name!r} {got!r}; pyscript last installed {last!r}{note}",
                             "t": rec["t_end"]})
     return out
 
@@ -1173,6 +1345,8 @@ def judge_history(w: "ReqWorld", sim: PkgSim, scn: dict) -> tuple[list, dict]:
                     w.probe("comment_hides_higher_pin")
                 if cls["kind"] in ("pin", "unpinned") and "==9.9" in ln:
                     w.probe("comment_hides_higher_pin")
+                if cls["kind"] in ("pin", "unpinned") and any(ch in ln for ch in ",<>~!"):
+                    w.probe("inline_comment_with_specifier_chars")  # the requirement itself has none of them
         if any(len(v) >= 2 for v in per_file.values()):
             w.probe("same_pkg_in_two_files")
         for name, exp in sel.items():
